@@ -70,12 +70,19 @@ def worker(ctx, job):
                 plist = ["all", 0]
             for partial in plist:
                 for event in (events if entry in ("link_to", "session", "opts") else ["none"]):
-                    for pre in ((False, True) if (fname == "absolute" and entry in ("link_to", "link_to_hash") and event in ("none", "modify")) else (False,)):
+                    REJECTED = ("opts_wrong_size", "opts_wrong_integrity", "opts_size_smaller", "opts_size_zero", "session_append")
+                    for pre in ((False, True) if (fname == "absolute" and entry in ("link_to", "link_to_hash") and event in ("none", "modify")) else
+                                (False, "earlier-link") if (fname in ("absolute", "relative") and entry in REJECTED) else (False,)):
                         fsutil.wipe(cache)
                         fsutil.wipe(real)
                         with open(real, "wb") as fh:
                             fh.write(data)
-                        if pre:
+                        if pre == "earlier-link":
+                            # the same bytes were linked successfully before (another key): a later REJECTED link must leave that entry readable
+                            r0 = srv.call({"op": "link_to_sync", "cache": cache, "key": "earlier-key", "target": real})
+                            if r0.get("ok") != sri:
+                                V.violation(res, "link:%s/%s:%s:earlier-link-%s" % (entry, side, fname, classify(r0)), "setting up the earlier link failed: %r" % r0, {"engine": "seqx"})
+                        elif pre:
                             wr.do_write(srv, cache, side="s", entry="hash", n=n, tag=131)
                         sig0 = stat_sig(real)
                         keyed = entry not in ("link_to_hash", "opts_hash")
@@ -145,6 +152,12 @@ def worker(ctx, job):
                             m = srv.call({"op": "metadata_sync", "cache": cache, "key": KEY})
                             if m.get("ok") is not None:
                                 V.violation(res, sig + ":rejected-but-mapped", "rejected link still mapped the key: %r" % m, replay)
+                            if pre == "earlier-link":
+                                for op_ in ("read_sync", "read_hash_sync"):
+                                    r1 = srv.call({"op": op_, "cache": cache, "key": "earlier-key", "sri": sri})
+                                    res["transitions"] += 1
+                                    if not ("ok" in r1 and wr.data_matches(r1["ok"], data)):
+                                        V.violation(res, sig + ":rejected-link-damaged-earlier-entry:" + op_, "after a rejected link of the same bytes, %s of the entry linked earlier gives %r" % (op_, r1), replay)
                             continue
                         if rep.get("ok") != sri:
                             V.violation(res, sig + ":" + (cls if "ok" not in rep else "wrong-digest"), "link returned %r, expected %s" % (rep, sri), replay)
